@@ -47,6 +47,12 @@ func ClassifyLockOp(c *ssa.CallCommon) (LockOp, bool) {
 	default:
 		return LockOp{}, false
 	}
+	if al, ok := c.Args[0].(*ssa.Alloc); ok && al.Heap {
+		// a local mutex whose address escapes is released by other goroutines
+		// (hand-over-hand protocol, e.g. the per-connection handler mutex):
+		// it is a semaphore, not a scoped lock, and is not tracked here.
+		return LockOp{}, false
+	}
 	op.Lock, op.Field = LockIdentity(c.Args[0])
 	return op, true
 }
@@ -84,11 +90,14 @@ type Held struct {
 	Read  bool
 }
 
-// LockState is the analysis result for one function.
+// LockState is the analysis result for one function. The analysis is
+// path-sensitive to the extent that a block may be entered with several
+// distinct lock states (conditional locking with a deferred unlock); queries
+// answer "held on every path" (HeldAt) or "held on some path" (MayHeldAt).
 type LockState struct {
 	Fn        *ssa.Function
-	in        map[*ssa.BasicBlock]string
-	Conflicts []string // joins with unequal states, unbalanced releases
+	in        map[*ssa.BasicBlock][]string
+	Conflicts []string // unbalanced releases, state explosion
 	// DeferredCalls lists deferred non-lock calls with the lock state they
 	// run under (at function exit, after later-registered defers ran).
 	DeferredCalls []DeferredCall
@@ -103,7 +112,7 @@ type DeferredCall struct {
 
 type lstate struct {
 	held   []Held   // multiset, sorted
-	defers []string // stack of "U:<lock>:<r|w>" / "C:<idx>"
+	defers []string // stack of "U<lock><r|w>" / "C:<idx>"
 }
 
 func (s lstate) key() string {
@@ -153,51 +162,99 @@ func (s *lstate) release(lock string, read bool) bool {
 	return false
 }
 
+const maxStatesPerBlock = 12
+
 // AnalyzeLocks runs the forward lock-state dataflow over fn. Closures and
 // goroutines start with the empty state.
 func AnalyzeLocks(fn *ssa.Function) *LockState {
-	ls := &LockState{Fn: fn, in: map[*ssa.BasicBlock]string{}}
+	ls := &LockState{Fn: fn, in: map[*ssa.BasicBlock][]string{}}
 	if len(fn.Blocks) == 0 {
 		return ls
 	}
 	var deferIdx []*ssa.Defer
-	ls.in[fn.Blocks[0]] = lstate{}.key()
-	work := []*ssa.BasicBlock{fn.Blocks[0]}
-	done := map[*ssa.BasicBlock]bool{}
-	for len(work) > 0 {
-		b := work[0]
-		work = work[1:]
-		if done[b] {
-			continue
+	type item struct {
+		b *ssa.BasicBlock
+		k string
+	}
+	has := func(b *ssa.BasicBlock, k string) bool {
+		for _, x := range ls.in[b] {
+			if x == k {
+				return true
+			}
 		}
-		done[b] = true
-		st := parseState(ls.in[b])
-		for _, in := range b.Instrs {
-			ls.step(&st, in, &deferIdx, true)
+		return false
+	}
+	k0 := lstate{}.key()
+	ls.in[fn.Blocks[0]] = []string{k0}
+	work := []item{{fn.Blocks[0], k0}}
+	reported := map[string]bool{}
+	for len(work) > 0 {
+		it := work[0]
+		work = work[1:]
+		st := parseState(it.k)
+		for _, in := range it.b.Instrs {
+			ls.step(&st, in, &deferIdx, true, reported)
 		}
 		out := st.key()
-		for _, s := range b.Succs {
-			if prev, ok := ls.in[s]; ok {
-				if prev != out {
-					ls.Conflicts = append(ls.Conflicts, fmt.Sprintf("block %d entered with different lock states %s and %s", s.Index, HeldString(parseState(prev).held), HeldString(parseState(out).held)))
+		for _, s := range it.b.Succs {
+			if has(s, out) {
+				continue
+			}
+			// states that differ only in registered deferred non-lock calls are merged
+			merged := false
+			for i, prev := range ls.in[s] {
+				if m, ok := mergeDeferredCalls(prev, out); ok {
+					merged = true
+					if m != prev {
+						ls.in[s][i] = m
+						work = append(work, item{s, m})
+					}
+					break
+				}
+			}
+			if merged {
+				continue
+			}
+			if len(ls.in[s]) >= maxStatesPerBlock {
+				msg := fmt.Sprintf("block %d is entered with more than %d distinct lock states (a lock acquired in a loop without release?)", s.Index, maxStatesPerBlock)
+				if !reported[msg] {
+					reported[msg] = true
+					ls.Conflicts = append(ls.Conflicts, msg)
 				}
 				continue
 			}
-			ls.in[s] = out
-			work = append(work, s)
+			ls.in[s] = append(ls.in[s], out)
+			work = append(work, item{s, out})
 		}
 	}
+	// de-duplicate deferred-call records
+	seen := map[string]bool{}
+	var dcs []DeferredCall
+	for _, d := range ls.DeferredCalls {
+		k := fmt.Sprintf("%p/%p/%s", d.Defer, d.At, HeldString(d.Held))
+		if !seen[k] {
+			seen[k] = true
+			dcs = append(dcs, d)
+		}
+	}
+	ls.DeferredCalls = dcs
 	return ls
 }
 
-func (ls *LockState) step(st *lstate, in ssa.Instruction, deferIdx *[]*ssa.Defer, record bool) {
+func (ls *LockState) step(st *lstate, in ssa.Instruction, deferIdx *[]*ssa.Defer, record bool, reported map[string]bool) {
+	conflict := func(msg string) {
+		if record && !reported[msg] {
+			reported[msg] = true
+			ls.Conflicts = append(ls.Conflicts, msg)
+		}
+	}
 	switch x := in.(type) {
 	case *ssa.Call:
 		if op, ok := ClassifyLockOp(&x.Call); ok {
 			if op.Acquire {
 				st.acquire(op)
-			} else if !st.release(op.Lock, op.Read) && record {
-				ls.Conflicts = append(ls.Conflicts, "release of "+op.Lock+" that is not held")
+			} else if !st.release(op.Lock, op.Read) {
+				conflict("release of " + op.Lock + " that is not held on some path")
 			}
 		}
 	case *ssa.Defer:
@@ -218,7 +275,16 @@ func (ls *LockState) step(st *lstate, in ssa.Instruction, deferIdx *[]*ssa.Defer
 				*deferIdx = append(*deferIdx, x)
 				idx = len(*deferIdx) - 1
 			}
-			st.defers = append(st.defers, fmt.Sprintf("C:%d", idx))
+			tag := fmt.Sprintf("C:%d", idx)
+			dup := false
+			for _, d := range st.defers {
+				if d == tag {
+					dup = true
+				}
+			}
+			if !dup {
+				st.defers = append(st.defers, tag)
+			}
 		}
 	case *ssa.RunDefers:
 		for i := len(st.defers) - 1; i >= 0; i-- {
@@ -226,8 +292,8 @@ func (ls *LockState) step(st *lstate, in ssa.Instruction, deferIdx *[]*ssa.Defer
 			if strings.HasPrefix(d, "U\x1f") {
 				f := strings.Split(d, "\x1f")
 				lock := f[1]
-				if !st.release(lock, f[2] == "r") && record {
-					ls.Conflicts = append(ls.Conflicts, "deferred release of "+lock+" that is not held at exit")
+				if !st.release(lock, f[2] == "r") {
+					conflict("deferred release of " + lock + " that is not held at exit on some path")
 				}
 			} else if record {
 				var idx int
@@ -239,24 +305,63 @@ func (ls *LockState) step(st *lstate, in ssa.Instruction, deferIdx *[]*ssa.Defer
 	}
 }
 
-// HeldAt returns the locks held just before instruction n executes.
-func (ls *LockState) HeldAt(n Node) []Held {
-	k, ok := ls.in[n.B]
-	if !ok {
-		return nil // unreachable block
-	}
-	st := parseState(k)
+func (ls *LockState) statesAt(n Node) [][]Held {
+	var out [][]Held
 	var dummy []*ssa.Defer
-	for i := 0; i < n.I; i++ {
-		ls.step(&st, n.B.Instrs[i], &dummy, false)
+	for _, k := range ls.in[n.B] {
+		st := parseState(k)
+		for i := 0; i < n.I; i++ {
+			ls.step(&st, n.B.Instrs[i], &dummy, false, nil)
+		}
+		out = append(out, st.held)
 	}
-	return st.held
+	return out
+}
+
+// HeldAt returns the locks held on *every* path just before instruction n.
+func (ls *LockState) HeldAt(n Node) []Held {
+	sts := ls.statesAt(n)
+	if len(sts) == 0 {
+		return nil
+	}
+	out := append([]Held{}, sts[0]...)
+	for _, st := range sts[1:] {
+		var keep []Held
+		for _, h := range out {
+			for _, x := range st {
+				if x == h {
+					keep = append(keep, h)
+					break
+				}
+			}
+		}
+		out = keep
+	}
+	return out
+}
+
+// MayHeldAt returns the locks held on *some* path just before instruction n.
+func (ls *LockState) MayHeldAt(n Node) []Held {
+	var out []Held
+	for _, st := range ls.statesAt(n) {
+		for _, h := range st {
+			dup := false
+			for _, x := range out {
+				if x == h {
+					dup = true
+				}
+			}
+			if !dup {
+				out = append(out, h)
+			}
+		}
+	}
+	return out
 }
 
 // Reachable reports whether the block of n is reachable from entry.
 func (ls *LockState) Reachable(n Node) bool {
-	_, ok := ls.in[n.B]
-	return ok
+	return len(ls.in[n.B]) > 0
 }
 
 // Holds reports whether a lock with the given field name is held (any base).
@@ -283,4 +388,42 @@ func HeldString(hs []Held) string {
 		s = append(s, h.Field+":"+m)
 	}
 	return "{" + strings.Join(s, ",") + "}"
+}
+
+// mergeDeferredCalls reconciles two states that differ only in which
+// deferred *non-lock* calls have been registered (a defer inside a loop or a
+// branch): the result carries the union, in the order of the longer stack.
+func mergeDeferredCalls(a, b string) (string, bool) {
+	sa, sb := parseState(a), parseState(b)
+	if (lstate{held: sa.held}).key() != (lstate{held: sb.held}).key() {
+		return "", false
+	}
+	strip := func(ds []string) []string {
+		var out []string
+		for _, d := range ds {
+			if !strings.HasPrefix(d, "C:") {
+				out = append(out, d)
+			}
+		}
+		return out
+	}
+	if strings.Join(strip(sa.defers), "\x1e") != strings.Join(strip(sb.defers), "\x1e") {
+		return "", false
+	}
+	long, short := sa, sb
+	if len(sb.defers) > len(sa.defers) {
+		long, short = sb, sa
+	}
+	for _, d := range short.defers {
+		found := false
+		for _, x := range long.defers {
+			if x == d {
+				found = true
+			}
+		}
+		if !found {
+			long.defers = append(long.defers, d)
+		}
+	}
+	return long.key(), true
 }
